@@ -70,6 +70,37 @@ def _baseline(args):
     return out
 
 
+def _thread_lifetimes(rt, rounds=40):
+    import threading
+
+    class Req(rt.Request):
+        options = {}
+
+    Req.handle(lambda r: "default")
+    main = threading.current_thread()
+    for i in range(rounds):
+        got = {}
+
+        def worker():
+            rt.inherit(main)
+            got["worker"] = Req().run()
+
+        def fresh():
+            got["fresh"] = Req().run()
+
+        with rt.handle(Req, lambda r: "custom"):
+            for fn in (worker, fresh):
+                t = threading.Thread(target=fn)
+                t.start()
+                t.join()
+        if got.get("worker") != "custom":
+            return "round %d: a worker that called inherit(main) inside main's handler block was served by %r" % (i, got.get("worker"))
+        if got.get("fresh") != "default":
+            return ("round %d: a brand-new thread (no inherit) started after an inheriting worker had finished was served by %r, "
+                    "not by the default" % (i, got.get("fresh")))
+    return None
+
+
 def main(tier):
     from . import thr_exec
 
@@ -190,6 +221,14 @@ def main(tier):
             rep.violation({"trace": [{k: v for k, v in e.items() if k != "res"} for e in tr],
                            "observed": tr[-1].get("res", tr[-1].get("exc"))},
                           {"kind": "rt-trace", "threads": ["t1", "t2", "t3"], "trace": tr, "rejected_at": line})
+
+        # ---- 2c. thread lifetimes ------------------------------------------------------
+        # a thread of RuntimeMachine that has done nothing yet has no context (Cur = 0: defaults serve it).  Real
+        # threads end and new ones start: a brand-new thread is such a thread, whatever threads that have ended did
+        # (a worker that inherited the main thread's context and finished must leave nothing behind for it)
+        m = _thread_lifetimes(rt)
+        if m:
+            rep.violation({"probe": "fresh-thread-after-finished-worker"}, {"kind": "probe", "name": "thread-lifetimes", "detail": m})
 
         code = rep.finish()
         sample = tl[len(tl) // 2]
